@@ -250,9 +250,6 @@ impl State for FileState {
             entry_command.put_u32_le(command_length as u32);
             entry_command.extend(command_payload);
             let command = entry_command.freeze();
-            EntryCommand::from_bytes(command.clone()).with_error_context(|error| {
-                format!("{COMPONENT} (error: {error}) - failed to parse entry command from bytes")
-            })?;
             let calculated_checksum = StateEntry::calculate_checksum(
                 index, term, leader_id, version, flags, timestamp, user_id, &context, &command,
             );
@@ -276,6 +273,11 @@ impl State for FileState {
                     entry.index,
                 ));
             }
+
+            // Only bytes that passed the checksum are handed to the command decoder.
+            entry.command().with_error_context(|error| {
+                format!("{COMPONENT} (error: {error}) - failed to parse entry command from bytes")
+            })?;
 
             entries.push(entry);
             if total_size == file_size {
